@@ -1,6 +1,7 @@
 package gov
 
 import (
+	"github.com/gnolang/gno/tm2/pkg/std"
 	"fmt"
 	"testing"
 	"time"
@@ -37,6 +38,40 @@ func TestDebugC53(t *testing.T) {
 		fmt.Printf("apply took %v err=%v load=%q init=%q ih=%d hash=%s\n", time.Since(t0), err, r.LoadErr, r.InitErr, r.IH, r.AppHash)
 		for _, x := range r.Txs {
 			fmt.Printf("   tx: err=%.100q gas=%d/%d log=%.100q\n", x.Err, x.GasUsed, x.GasWanted, x.Log)
+		}
+	}
+}
+
+func TestDebugC12(t *testing.T) {
+	for _, reg := range []bool{false, true} {
+		e, err := c12Setup(reg)
+		if err != nil {
+			t.Fatal(err)
+		}
+		s, objs, err := e.pstState()
+		fmt.Printf("registry=%v pst snapshot=%q objs=%d err=%v\n", reg, s, len(objs), err)
+		for i, d := range []c12Deploy{
+			{Path: "gno.land/r/c12/aa", Name: "aa", Files: 0},
+			{Path: "gno.land/r/c12/bb", Name: "bb", Files: 1, Private: true},
+			{Path: "gno.land/p/c12/aa", Name: "aa", Files: 2},
+			{Path: "gno.land/r/c12/aa/v2", Name: "aa", Files: 4},
+			{Path: "gno.land/r/alice/xx", Name: "xx", Files: 5},
+			{Path: "gno.land/r/c12/sub-x_y/aa", Name: "aa", Files: 3},
+			{Path: "gno.land/r/c12/bb", Name: "bb", Files: 0, Private: true, Ver: 1},
+			{Path: "gno.land/r/c12/bb", Name: "bb", Files: 0, Private: false, Ver: 2},
+		} {
+			e.tsec += 5
+			e.c.Begin(e.tsec)
+			r, _, err := e.c.Send([]std.Msg{c12Msg(e.keys[0], d)}, 200_000_000, 1_000_000, e.keys[0])
+			e.c.End()
+			fmt.Printf("  deploy %d %+v: err=%v resp=%v gas=%d\n", i, d, err, r.Error, r.GasUsed)
+			if r.Error != nil {
+				fmt.Printf("     log=%.300s\n", r.Log)
+			} else {
+				l, _ := e.qfile(d.Path)
+				m, _ := e.qfile(d.Path + "/gnomod.toml")
+				fmt.Printf("     files=%q\n     gnomod=%q\n", l, m)
+			}
 		}
 	}
 }
